@@ -12,8 +12,12 @@ import (
 
 	kafka "github.com/segmentio/kafka-go"
 
+	"sync/atomic"
+
 	"verifharness/core"
+	"verifharness/fakecluster"
 	"verifharness/fakenet"
+	"verifharness/refcodec"
 )
 
 // C09 — Close, cancellation and use-after-close behave and terminate.
@@ -74,6 +78,337 @@ func waitNoGoroutines(bound time.Duration, markers ...string) (int, []string) {
 
 func runC09(c *core.Ctx) {
 	c.Cases("wclose", c.N(260, 5000), func(k *core.Case) { c09Writer(k) })
+	c.Cases("rclose", c.N(160, 3000), func(k *core.Case) { c09Reader(k) })
+	c.Cases("transport", c.N(60, 1200), func(k *core.Case) { c09Transport(k) })
+}
+
+var readerMarkers = []string{"kafka-go.(*Reader).", "kafka-go.(*reader).", "kafka-go.(*ConsumerGroup).", "kafka-go.(*Generation).", "kafka-go.NewConsumerGroup"}
+
+// c09Reader: Close of a (group) Reader placed while calls are blocked, fetching, committing, during a
+// rebalance or with an unreachable / silent broker.
+func c09Reader(k *core.Case) {
+	c := k.Ctx
+	r := k.R
+	group := r.Bool()
+	placement := core.Pick(r, "idle-at-log-end", "mid-stream", "blocked-fetch", "cancel-blocked-fetch", "silent-broker", "unreachable-leader")
+	if group {
+		placement = core.Pick(r, "idle-at-log-end", "mid-stream", "during-rebalance", "cancel-blocked-commit", "blocked-fetch", "silent-coordinator")
+	}
+	net := fakenet.New()
+	cl := fakecluster.New(net)
+	cl.MaxWaitCap = 10 * time.Millisecond
+	nb := r.Range(1, 3)
+	for i := 1; i <= nb; i++ {
+		cl.AddBroker(int32(i), "")
+	}
+	nparts := r.Range(1, 4)
+	cl.AddTopic("t0", nparts, nil)
+	per := r.Range(0, 30)
+	for p := 0; p < nparts; p++ {
+		cl.Lock()
+		pt := cl.Topics["t0"].Partitions[p]
+		var recs []refcodec.Rec
+		for i := 0; i < per; i++ {
+			recs = append(recs, refcodec.Rec{Offset: int64(i), TimestampMs: tsBase + int64(i), Value: []byte(fmt.Sprintf("v%d", i))})
+		}
+		if per > 0 {
+			enc, _ := refcodec.NewBatchV2(recs, 0, -1, 0).Encode(refcodec.CompressOpts{})
+			pt.AppendStored(&fakecluster.Stored{Bytes: enc, BaseOffset: 0, LastOffset: int64(per - 1)}, recs)
+		}
+		cl.Unlock()
+	}
+	k.Describe(map[string]any{"list": "rclose", "group": group, "placement": placement, "brokers": nb, "partitions": nparts, "records_per_partition": per})
+	var silent int32
+	cl.Script = func(rc *fakecluster.ReqCtx) *fakecluster.Action {
+		if atomic.LoadInt32(&silent) == 0 {
+			return nil
+		}
+		switch placement {
+		case "silent-broker":
+			if rc.Ev.API == fakecluster.KFetch {
+				return &fakecluster.Action{Kind: fakecluster.ActIgnore}
+			}
+		case "silent-coordinator":
+			if rc.Ev.API == fakecluster.KHeartbeat || rc.Ev.API == fakecluster.KOffsetCommit || rc.Ev.API == fakecluster.KJoinGroup {
+				return &fakecluster.Action{Kind: fakecluster.ActIgnore}
+			}
+		}
+		return nil
+	}
+	base, _ := libGoroutines(readerMarkers...)
+	cfg := kafka.ReaderConfig{Brokers: []string{"b1:9092"}, Topic: "t0", Dialer: &kafka.Dialer{DialFunc: net.Dialer("rd"), ClientID: "rd", Timeout: 300 * time.Millisecond},
+		MaxWait: 10 * time.Millisecond, ReadBatchTimeout: 200 * time.Millisecond, ReadBackoffMin: time.Millisecond, ReadBackoffMax: 5 * time.Millisecond, MinBytes: 1, MaxBytes: 1 << 20,
+		QueueCapacity: core.Pick(r, 1, 10, 100), ReadLagInterval: -1, MaxAttempts: 2}
+	if group {
+		cfg.GroupID = "g"
+		cfg.HeartbeatInterval = time.Duration(r.Range(3, 15)) * time.Millisecond
+		cfg.SessionTimeout = 400 * time.Millisecond
+		cfg.RebalanceTimeout = 300 * time.Millisecond
+		cfg.JoinGroupBackoff = 5 * time.Millisecond
+		cfg.CommitInterval = time.Duration(core.Pick(r, 0, 0, 10)) * time.Millisecond
+	} else {
+		cfg.Partition = r.Intn(nparts)
+		if r.Chance(1, 3) {
+			cfg.ReadLagInterval = 50 * time.Millisecond
+		}
+	}
+	rd := kafka.NewReader(cfg)
+	total := per
+	if group {
+		total = per * nparts
+	}
+	ctx, cancel := context.WithCancel(context.Background())
+	defer cancel()
+	type res struct {
+		err     error
+		t0, t1  int64
+		started time.Time
+	}
+	var mu sync.Mutex
+	var results []res
+	var delivered int32
+	var closing int32 // set before Close is called: the application stops committing (a commit on a closed reader only ends with its context)
+	var lastMsg kafka.Message
+	appDone := make(chan struct{})
+	go func() {
+		defer close(appDone)
+		for {
+			t0 := core.Tick()
+			m, err := rd.FetchMessage(ctx)
+			mu.Lock()
+			results = append(results, res{err: err, t0: t0, t1: core.Tick()})
+			if err == nil {
+				lastMsg = m
+			}
+			mu.Unlock()
+			if err != nil {
+				if errors.Is(err, io.EOF) || ctx.Err() != nil {
+					return
+				}
+				time.Sleep(200 * time.Microsecond)
+				continue
+			}
+			n := atomic.AddInt32(&delivered, 1)
+			if group && (n%3 == 0 || placement == "cancel-blocked-commit") && atomic.LoadInt32(&closing) == 0 {
+				cerr := rd.CommitMessages(ctx, m)
+				if placement == "cancel-blocked-commit" && cerr != nil && ctx.Err() != nil {
+					mu.Lock()
+					results = append(results, res{err: fmt.Errorf("commit: %w", cerr), t0: t0, t1: core.Tick()})
+					mu.Unlock()
+					return
+				}
+			}
+		}
+	}()
+	waitDelivered := func(n int) {
+		deadline := time.Now().Add(5 * time.Second)
+		for int(atomic.LoadInt32(&delivered)) < n && time.Now().Before(deadline) {
+			time.Sleep(200 * time.Microsecond)
+		}
+	}
+	cancelled := false
+	switch placement {
+	case "idle-at-log-end", "blocked-fetch":
+		waitDelivered(total)
+		time.Sleep(time.Duration(r.Intn(3000)) * time.Microsecond)
+	case "mid-stream":
+		waitDelivered(r.Intn(total + 1))
+	case "during-rebalance":
+		waitDelivered(r.Intn(total + 1))
+		cl.GroupRebalance("g")
+		time.Sleep(time.Duration(r.Intn(4000)) * time.Microsecond)
+	case "silent-broker", "silent-coordinator":
+		waitDelivered(r.Intn(total/2 + 1))
+		atomic.StoreInt32(&silent, 1)
+		time.Sleep(time.Duration(r.Range(5, 30)) * time.Millisecond)
+	case "unreachable-leader":
+		waitDelivered(r.Intn(total/2 + 1))
+		net.Kill("rd")
+		time.Sleep(time.Duration(r.Range(5, 30)) * time.Millisecond)
+	case "cancel-blocked-fetch", "cancel-blocked-commit":
+		waitDelivered(total)
+		if placement == "cancel-blocked-commit" {
+			atomic.StoreInt32(&silent, 1)
+		}
+		time.Sleep(time.Duration(r.Range(2, 10)) * time.Millisecond)
+		tc := time.Now()
+		cancel()
+		cancelled = true
+		select {
+		case <-appDone:
+		case <-time.After(3 * time.Second):
+			k.TimeViol("c09:reader-cancel-not-honoured:"+placement, "a blocked FetchMessage/CommitMessages did not return within 3 s after its context was cancelled", nil)
+			<-appDone
+		}
+		c.Max("max:reader_cancel_to_return_ms", time.Since(tc).Milliseconds())
+		mu.Lock()
+		last := results[len(results)-1]
+		mu.Unlock()
+		if last.err == nil || !errors.Is(last.err, context.Canceled) {
+			k.Viol("c09:reader-cancel-wrong-error:"+placement, fmt.Sprintf("after cancellation the blocked call returned %v, want an error wrapping context.Canceled", last.err), nil)
+		}
+	}
+	// Close under a watchdog
+	closeDone := make(chan struct{})
+	var closeStart, closeEnd int64
+	tClose := time.Now()
+	atomic.StoreInt32(&closing, 1)
+	go func() {
+		defer close(closeDone)
+		closeStart = core.Tick()
+		rd.Close()
+		closeEnd = core.Tick()
+	}()
+	c.Eval(1)
+	c.Count("rclose_placement:"+placement, 1)
+	select {
+	case <-closeDone:
+	case <-time.After(20 * time.Second):
+		_, stacks := libGoroutines(readerMarkers...)
+		k.TimeViol("c09:reader-close-hangs:"+placement, fmt.Sprintf("Reader.Close did not return within 20 s (group=%v, placement %s)", group, placement), map[string]any{"goroutines": stacks})
+		cancel()
+		cl.Close()
+		return
+	}
+	c.Max("max:reader_close_ms", time.Since(tClose).Milliseconds())
+	if !cancelled {
+		select {
+		case <-appDone:
+		case <-time.After(10 * time.Second):
+			k.TimeViol("c09:fetchmessage-blocked-after-close:"+placement, "a FetchMessage call blocked when Close was called did not return within 10 s after Close returned", nil)
+			cancel()
+			<-appDone
+		}
+		mu.Lock()
+		last := results[len(results)-1]
+		mu.Unlock()
+		if !errors.Is(last.err, io.EOF) {
+			k.Viol("c09:blocked-fetch-after-close-wrong-error:"+placement, fmt.Sprintf("the FetchMessage call that was blocked when Close ran returned %v, want io.EOF", last.err), nil)
+		}
+	}
+	// use after close
+	if _, err := rd.FetchMessage(context.Background()); !errors.Is(err, io.EOF) {
+		k.Viol("c09:fetch-after-close", fmt.Sprintf("FetchMessage after Close returned %v, want io.EOF", err), nil)
+	}
+	if _, err := rd.ReadMessage(context.Background()); !errors.Is(err, io.EOF) {
+		k.Viol("c09:read-after-close", fmt.Sprintf("ReadMessage after Close returned %v, want (an error wrapping) io.EOF", err), nil)
+	}
+	_ = lastMsg
+	cl.Close()
+	cl.Quiesce(5 * time.Second)
+	// nothing but lag/metadata requests after Close returned; LeaveGroup before
+	left := false
+	member := ""
+	for _, ev := range cl.Journal() {
+		if ev.Body == nil {
+			continue
+		}
+		cw := ev.ClientWriteSeq()
+		if ev.API == fakecluster.KJoinGroup && ev.Code == 0 && ev.Resp != nil {
+			member = refcodec.Str(ev.Resp["MemberId"])
+			left = false
+		}
+		if ev.API == fakecluster.KLeaveGroup && cw != 0 && cw <= closeEnd {
+			left = true
+		}
+		if cw > closeEnd && closeEnd > 0 {
+			switch ev.API {
+			case fakecluster.KFetch, fakecluster.KHeartbeat, fakecluster.KOffsetCommit:
+				k.Viol("c09:request-after-reader-close:"+refcodec.APIs[ev.API].Name, fmt.Sprintf("a %s request was written at %d, after Reader.Close had returned at %d", refcodec.APIs[ev.API].Name, cw, closeEnd), map[string]any{"placement": placement, "group": group})
+			}
+		}
+	}
+	if group && member != "" && placement != "unreachable-leader" && placement != "silent-coordinator" {
+		_, _, members := cl.GroupSnapshot("g")
+		still := false
+		for _, m := range members {
+			if m == member {
+				still = true
+			}
+		}
+		if !left && still {
+			k.Viol("c09:reader-close-no-leavegroup", fmt.Sprintf("Reader.Close returned but no LeaveGroup was sent for member %s, which the coordinator still lists", member), map[string]any{"placement": placement})
+		}
+		if left {
+			c.Count("group_reader_closes_with_leavegroup", 1)
+		}
+	}
+	// leaks
+	if n, stacks := waitNoGoroutines(5*time.Second, readerMarkers...); n > base {
+		k.TimeViol("c09:reader-goroutine-leak", fmt.Sprintf("%d goroutines started by the Reader/ConsumerGroup are still alive 5 s after Close returned", n-base), map[string]any{"goroutines": stacks, "placement": placement, "group": group})
+	}
+	deadline := time.Now().Add(5 * time.Second)
+	for len(net.OpenConns("rd")) > 0 && time.Now().Before(deadline) {
+		time.Sleep(time.Millisecond)
+	}
+	if open := net.OpenConns("rd"); len(open) > 0 && placement != "unreachable-leader" {
+		k.TimeViol("c09:reader-connection-leak", fmt.Sprintf("%d connections opened by the Reader are still open 5 s after Close returned", len(open)), map[string]any{"placement": placement, "group": group})
+	}
+	c.Distinct(fmt.Sprintf("rclose group%v %s q%d", group, placement, cfg.QueueCapacity))
+	if k.Idx < 6 {
+		c.Sample(map[string]any{"case": k.ID, "group": group, "placement": placement, "delivered_before_close": atomic.LoadInt32(&delivered), "close_ms": time.Since(tClose).Milliseconds(), "close": fmt.Sprintf("[%d,%d]", closeStart, closeEnd)})
+	}
+}
+
+// c09Transport: RoundTrip returns the context's error although the broker never answers.
+func c09Transport(k *core.Case) {
+	c := k.Ctx
+	r := k.R
+	env := newConnEnv(nil)
+	defer env.Cluster.Close()
+	ops := transportOps()
+	op := ops[r.Intn(len(ops))]
+	silentAPI := op.API
+	if r.Chance(1, 3) {
+		silentAPI = fakecluster.KApiVersions // the connection setup itself never completes
+	}
+	env.Cluster.Script = func(rc *fakecluster.ReqCtx) *fakecluster.Action {
+		if rc.Ev.API == silentAPI && rc.Ev.ClientID == "verif-c09" {
+			return &fakecluster.Action{Kind: fakecluster.ActIgnore}
+		}
+		return nil
+	}
+	tr := &kafka.Transport{Dial: env.Net.Dialer("tr"), ClientID: "verif-c09", MetadataTTL: time.Hour, IdleTimeout: 50 * time.Millisecond, DialTimeout: 10 * time.Second}
+	defer tr.CloseIdleConnections()
+	mode := core.Pick(r, "cancel", "deadline")
+	k.Describe(map[string]any{"list": "transport", "api": op.Name, "silent_api": silentAPI, "mode": mode})
+	ctx, cancel := context.WithCancel(context.Background())
+	if mode == "deadline" {
+		cancel()
+		ctx, cancel = context.WithTimeout(context.Background(), time.Duration(r.Range(5, 30))*time.Millisecond)
+	}
+	defer cancel()
+	done := make(chan error, 1)
+	go func() {
+		_, err := tr.RoundTrip(ctx, kafka.TCP("b1:9092"), op.Req())
+		done <- err
+	}()
+	if mode == "cancel" {
+		time.Sleep(time.Duration(r.Range(2, 20)) * time.Millisecond)
+		cancel()
+	}
+	c.Eval(1)
+	select {
+	case err := <-done:
+		want := context.Canceled
+		if mode == "deadline" {
+			want = context.DeadlineExceeded
+		}
+		if silentAPI == fakecluster.KApiVersions && op.API == fakecluster.KApiVersions {
+			// nothing
+		}
+		if err == nil {
+			// the request may have been answered from the metadata cache or need no response
+			c.Count("transport_roundtrip_completed_anyway", 1)
+		} else if !errors.Is(err, want) && !errors.Is(err, context.Canceled) && !errors.Is(err, context.DeadlineExceeded) {
+			k.Viol("c09:transport-wrong-error:"+mode, fmt.Sprintf("RoundTrip(%s) on a silent broker returned %v after its context ended (%s)", op.Name, err, mode), nil)
+		} else {
+			c.Count("transport_roundtrip_unblocked:"+mode, 1)
+		}
+	case <-time.After(3 * time.Second):
+		k.TimeViol("c09:transport-cancel-not-honoured:"+mode, fmt.Sprintf("RoundTrip(%s) did not return within 3 s after its context ended (%s) while the broker stayed silent", op.Name, mode), nil)
+	}
+	c.Distinct(fmt.Sprintf("transport %s %s silent%d", op.Name, mode, silentAPI))
 }
 
 func c09Writer(k *core.Case) {
